@@ -7,17 +7,44 @@ props = [json.loads(l)['id'] for l in open(os.path.join(HERE, 'properties.jsonl'
 TRUST = ('trusted base: rustc nightly type-checked MIR (mir-opt-level=0) of /repo as dumped by tools/mirfacts, and the Python '
          'rule library under rules/; user closures, FromStr impls and third-party Parser impls are assumptions. ')
 
+def C(technique, text, ref, note='', category='other'):
+    return dict(technique=technique, text=text, ref=ref, note=TRUST + note, category=category)
+
 CLAIMED = {
- 'C15': dict(
-   technique='typed taint + template/CFG rules over type-checked MIR (custom rustc_private driver)',
-   text=('Decides structural necessary conditions on every autocomplete configuration: every fmt argument render_zsh/render_bash '
-         'write has the quoting newtype Shell as its resolved Display type (constants, integers and developer-supplied Raw strings '
-         'excepted), every directive template ends in a newline, the accumulator is what is returned once written to, every return '
-         'has iterated or size-tested both inputs (items, ops), the Shell escaper opens/closes/escapes, revision->renderer dispatch '
-         'and the stub revision constants agree. Holds for all inputs at once because it is a property of the code shape; does NOT '
-         'decide what a real shell does with the text. Right level: the property is a taint/format discipline.'),
-   note=TRUST + 'Known findings (render_fish / render_simple never emit requested shell completers) are listed in known_findings.json.',
-   ref='DESIGN.md section 5 C15'),
+ 'C01': C('consumer-discipline PROV/PAIR rules, decision tables by abstract evaluation over finite domains, macro-expansion witness, all on type-checked MIR',
+   'Decides structural necessary conditions of grammar conformance: every primitive consumer takes the leftmost in-scope present match through the filtered iterator and removes what it read; '
+   'ledger primitives are guarded; every documented form of construct! (expanded by the current macro in a witness crate) evaluates each field once, in order, on the shared state, without '
+   'short-circuit, reporting the first failing field; parse_option decision table (76 rows) and loop-exit rules for some/many/count/last/collect; the leftover check dominates every Ok of run_subparser. '
+   'Does NOT decide language equivalence for every shape x vector (run-time data).', 'DESIGN.md section 5 C01'),
+ 'C03': C('provenance (index-is-opaque) + search-kind and accept-set tables over MIR',
+   'Decides the anchored mechanism only: named consumers select by name over the whole scope and the index found flows only into remove/get/+1/current; words never match a name; '
+   'positional consumers skip named items. Does NOT decide permutation invariance of outcomes.', 'DESIGN.md section 5 C03'),
+ 'C05': C('who-may-write census, guard control-dependence, read=>remove pairing, error-discipline census, symbolic scope tracking along all paths (set_scope/clone/swap)',
+   'Decides: the consumption ledger is written only by the listed primitives and is private (third-party parsers cannot consume); consumption acts only on in-scope present items; '
+   'success of a consumer implies removal of what it read; Ok of run_subparser implies empty scope; the Err->Ok conversion sites are exactly the listed ones and each restores or never adopts '
+   'the failed attempt; ParseAdjacent/ParseCommand leave the caller scope un-narrowed on every Ok path (found and fixed 9061519). Does NOT decide scope arithmetic for every shape.', 'DESIGN.md section 5 C05'),
+ 'C06': C('enum->bool table extraction, construction-site context rule (control dependence on consumer success edges), decision tables of the wrappers by abstract evaluation, error-discipline census',
+   'Decides: can_catch partitions the 17 Message variants as the property states; a variant built after a consumer succeeded is final; fallback/fallback_with/hide/parse_option decision tables '
+   '(per variant x catch x consumed) default only for the absence class and return the same error otherwise; repetition loops stop on failure; conversion/guard text is carried into the rendered message. '
+   'Does NOT decide which error survives a particular nesting in alternatives.', 'DESIGN.md section 5 C06'),
+ 'C09': C('tokenizer control-dependence/provenance rules, accept-set tables, strictness decision table by abstract evaluation',
+   'Decides: after `--` the tokenizer bypasses option splitting and pushes PosWord; pos_only is set only on the literal in the non-option arm; the separator index is recorded at detection and '
+   'pre-consumed; PosWord is never accepted as name, command or argument value; take_positional_word tags Word/PosWord; parse_pos_word table over Position x side; StrictPos final, NonStrictPos catchable; '
+   'help lookup goes through take_flag. Does NOT decide completion interplay.', 'DESIGN.md section 5 C09'),
+ 'C11': C('enum->const tables, per-arm call census, dominance ordering, provenance of exit/print arguments, who-may-call census',
+   'Decides: exit_code table; print_message stream per variant and payload/template per arm; run = run_inner(current_args()) with Ok silent and Err printing before exit(exit_code(err)); '
+   'current_args consumes exactly argv[0] (file_name().to_str()) before boxing the same iterator; exit/print call sites are the listed ones; every render arm writes text. '
+   'Does NOT decide byte equality across the process boundary.', 'DESIGN.md section 5 C11'),
+ 'C15': C('typed taint + template/CFG rules over type-checked MIR (custom rustc_private driver)',
+   'Decides structural necessary conditions on every autocomplete configuration: every fmt argument render_zsh/render_bash '
+   'write has the quoting newtype Shell as its resolved Display type (constants, integers and developer-supplied Raw strings '
+   'excepted), every directive template ends in a newline, the accumulator is what is returned once written to, every return '
+   'has iterated or size-tested both inputs (items, ops), the Shell escaper opens/closes/escapes, revision->renderer dispatch '
+   'and the stub revision constants agree. Does NOT decide what a real shell does with the text.', 'DESIGN.md section 5 C15',
+   note='Known findings (render_fish / render_simple never emit requested shell completers) are listed in known_findings.json.'),
+ 'C18': C('who-may-call census incl. fn-item references, name provenance, precedence by edge-restricted reachability, single-conversion join',
+   'Decides: std::env is used only at the listed sites with names from the declared env list; the flag/argument consumers consult the command line on every path and the environment only on '
+   'the absent edge; env and command-line values share the one parse_os_str conversion; both-absent exits build Missing/NoEnv which are catchable. Does NOT decide wrapper behaviour (C06).', 'DESIGN.md section 5 C18'),
 }
 
 NA_REASON = {
